@@ -170,8 +170,21 @@ def value_build(j: dict, shape: str, dt: str):
     def arr(xs):
         return np.array([uncanon(s, dt) for s in xs], dtype=t)
 
+    def perm(items, key):
+        # insertion order of a mapping is not part of its value: build the dictionaries in a content-derived pseudo-random
+        # order so that code relying on insertion order (instead of the enum / species order) is exercised (seed C03_4)
+        import zlib
+
+        items = list(items)
+        k = zlib.crc32(repr(key).encode())
+        out = []
+        while items:
+            out.append(items.pop(k % len(items)))
+            k = k // 7 + 13
+        return out
+
     def tmv(xs):
-        return ThrustModeValues({m: sc(x).item() for m, x in zip(ThrustMode, xs)})
+        return ThrustModeValues({m: sc(x).item() for m, x in perm(zip(ThrustMode, xs), xs)})
 
     if shape == 'T':
         x = sc(v)
@@ -181,10 +194,10 @@ def value_build(j: dict, shape: str, dt: str):
     if shape == 'TM':
         return tmv(v)
     if shape == 'TS':
-        return SpeciesValues({Species[s]: sc(x).item() for s, x in v})
+        return SpeciesValues({Species[s]: sc(x).item() for s, x in perm(v, v)})
     if shape == 'TSP':
-        return SpeciesValues({Species[s]: arr(x) for s, x in v})
-    return SpeciesValues({Species[s]: tmv(x) for s, x in v})
+        return SpeciesValues({Species[s]: arr(x) for s, x in perm(v, v)})
+    return SpeciesValues({Species[s]: tmv(x) for s, x in perm(v, v)})
 
 
 # ----------------------------------------------------------------------------------------------- generators
@@ -311,6 +324,8 @@ def gen_case(rng, cid: int, stream: str) -> dict:
     indexable = bool(rng.random() < 0.7)  # flight_id on all trajectories or on none (the store refuses a mix by name)
     for ti in range(ntraj):
         npnts = int(rng.integers(1, 7))
+        if rng.random() < 0.08:
+            npnts = 0  # a trajectory without points (all trajectory lengths are quantified over)
         # later trajectories normally stay inside the species of the first one (the file's species dimension)
         vals = {fs['tag']: {f['name']: gen_value(rng, f, npnts, pool, boundary, none_p) for f in fs['fields']} for fs in fss}
         trajs.append({'npoints': npnts,
